@@ -506,7 +506,8 @@ pub fn gen_body(rng: &mut Rng, mut len: usize, n: usize, vmax: u32, oob: bool, t
 }
 
 pub fn gen_txn(rng: &mut Rng, len: usize, vmax: u32, oob: bool, trav: bool, maxlen: usize) -> VOp {
-    let n = rng.below(5);
+    // mostly short bodies; now and then a transaction that records dozens of diffs (more than 32, 64, 128)
+    let n = if rng.chance(1, 40) { rng.range(33, 140) } else { rng.below(5) };
     let body = gen_body(rng, len, n, vmax, oob, trav, maxlen);
     let end = match rng.below(10) {
         0..=5 => TxEnd::Commit,
